@@ -111,6 +111,7 @@ def make_run(cfg):
             tgt = targets.LogTarget()
             d.register(tgt, "obj")
             w.serve(d)
+            w.net.accept_faults = int(cfg.get("accept_faults", 0))
             got = {"witness": [], "fresh": None, "attacker": None}
             witness_in = S.CoopEvent()
             attacker_done = S.CoopEvent()
@@ -319,6 +320,10 @@ def run(ctx):
         for lab, phase, ending in (("garbage.interrupt", "after-handshake", "close"), ("I.trunc@-1", "after-handshake", "reset")) + (() if ctx.quick else (("garbage.interrupt", "first", "close"), ("C.trunc@39", "first", "reset"), ("I.raises-unserialisable", "after-handshake", "close"))):
             cfgs.append({"server": server, "timeout": 0.0, "pool": "roomy", "stream": lab, "phase": phase, "ending": ending, "witness_reconnects": True,
                          "p": 1, "r": 1 if ctx.quick else 2, "horizon": 4000})
+    # the process runs out of descriptors for a while: accept() fails 3 / 8 / 20 times in a row while connections are pending
+    for server in ("multiplex", "thread"):
+        for nf in (3, 8, 20):
+            cfgs.append({"server": server, "timeout": 0.0, "pool": "roomy", "stream": "garbage.interrupt", "phase": "first", "ending": "close", "accept_faults": nf, "p": 0, "r": 0, "horizon": 6000})
     # every stream once more under the default schedule with debug logging switched on (the daemon's log calls format their arguments)
     for c in list(cfgs):
         if c["p"] == 0 and c["r"] == 0 and c["server"] in ("multiplex", "thread") and c["timeout"] == 0.0 and c["ending"] in ("close", "reset") and c["pool"] != "full":
